@@ -185,4 +185,4 @@ def replay(r):
         return out
     if name is None:
         return None
-    return native_compare(name, variant=meta.get("variant", "default"), what="expected")
+    return native_compare(name, variant=meta.get("variant", "default"), what="logpdf" if meta.get("what") == "logpdf" else "expected", batch=meta.get("batch"))
